@@ -15,7 +15,7 @@ CHECKS = {
              "index / arithmetic / unwrap site is discharged by a dominating guard on the same receiver or an interval proof "
              "(totality); (T1) the BigSize reader's marker->width table equals the writer's range->(marker,width) table, ranges "
              "partition u64 and are minimal, big-endian on both sides; (L1) record order/content discipline of decoder and "
-             "encoder; (L2) entry points delegate; (U) tu64 clauses; (G) get(typ) selects by type equality over the whole list; the decoder stops only with at most one stray byte left; the encoder's buffer starts empty. Not an enumeration of byte strings.",
+             "encoder; (L2) entry points delegate; (U) tu64 clauses; (G) get(typ) selects by type equality over the whole list; the decoder stops only with at most one stray byte left; the encoder's buffer starts empty; (E) every error originates under a remaining()/len() comparison or passes on an inner decoder's error. Not an enumeration of byte strings.",
         note="Not decided: decode(encode(x)) == x by enumeration (follows from T1+L1 given bytes' primitives); non-minimal input "
              "encodings are re-encoded minimally.",
         design="5/C18"),
@@ -31,7 +31,7 @@ CHECKS = {
         technique="CFG path/typestate rules over the lifecycle coroutine's MIR + store write-record extraction",
         text="Decides, for every path of the lifecycle coroutine, the typestate clauses S1-S6 (fetch first; Pending => wait first; wait error never fails; "
              "mark_failed only after Ok(None)/pay Err and required Ok before collecting; fail requests only pre-payment; after pay fail only on Err) and S7 "
-             "(generation-guarded Free write in every Datastore impl); S8 (a classified HTLC is answered only through the lifecycle), S9 (provider clauses, incl. no clock on the wait path), S10 (no per-HTLC failure answered directly before the lifecycle is consulted), S11 (a stored Pending record is reported as Pending: fetch mapping).",
+             "(generation-guarded Free write in every Datastore impl); S8 (a classified HTLC is answered only through the lifecycle), S9 (provider clauses, incl. no clock on the wait path), S10 (no per-HTLC failure answered directly before the lifecycle is consulted), S11 (a stored Pending record is reported as Pending: fetch mapping; records round-trip through serde), S12 (a held HTLC is answered only by the drain of its own lifecycle).",
         note="Not decided: the schedule/crash-point space as executions; node-side pay state after an RPC connection error.",
         design="5/C02"),
     "C05": dict(
@@ -52,7 +52,7 @@ CHECKS = {
         technique="effect-sequence typestate: explicit fixed point over abstract stored images using write records extracted from MIR",
         text="Extracts (key kind, mode, generation guard, payload) of every datastore write per Datastore method, explores all images reachable by crashes / "
              "rejected / applied-but-failed writes, and requires every fault-free recovery write to be satisfiable on every reachable image; must-create keys "
-             "must be clock-fresh; (E) every lifecycle path, failed-write exits included, answers exactly once and thereby removes the table entry; (V) wait_payment, on which the recovery of a stored Pending state hangs, honours C15-V* (a failed part is neither an error nor `nothing pending` while another part lives); (B) nothing blocks while the table lock is held (C14-L1), so a lifecycle can always answer and remove its entry; (F) the fetch mapping reports every image an interrupted run can leave.",
+             "must be clock-fresh; (E) every lifecycle path, failed-write exits included, answers exactly once and thereby removes the table entry; (V) wait_payment, on which the recovery of a stored Pending state hangs, honours C15-V* (a failed part is neither an error nor `nothing pending` while another part lives); (B) nothing blocks while the table lock is held (C14-L1), so a lifecycle can always answer and remove its entry; (F) the fetch mapping reports every image an interrupted run can leave; (R) every persisted record type is read with the field encodings it is written with.",
         note="Assumes documented CLN datastore mode semantics; the lifecycle's choice of recovery call per stored state is decided by C02-S2/S4, C05-A2 (re-checked here).",
         design="5/C09"),
     "C11": dict(
@@ -60,7 +60,7 @@ CHECKS = {
         text="Decides T1 (sleep operand is mpp_timeout or mpp_timeout.saturating_sub(age of the stored attempt); Pending reaches the select only through that "
              "computation), T2 (is_zero guard => immediate 0x2019, no pay), T3 (timer arm answers 0x2019 once, cannot pay/write), T4 (nothing answered before "
              "the select on the Free arm; operands are exactly timer/fail/ready), T5 (option wiring), T6 (the timer is armed once: the sleep future is not "
-             "created inside a loop), T7 (the stored-state lookup before the clock starts cannot queue behind other payments: no connection/lock/semaphore shared across hashes), T8 (nothing blocks under the table lock the timer arm needs).",
+             "created inside a loop), T7 (the stored-state lookup before the clock starts cannot queue behind other payments: no connection/lock/semaphore shared across hashes), T8 (nothing blocks under the table lock the timer arm needs), and the exactness of the predicate that says a set is complete (C12-X1/X2).",
         note="Not decided: wall-clock behaviour, tokio timer accuracy.",
         design="5/C11"),
     "C01": dict(
@@ -74,7 +74,7 @@ CHECKS = {
         text="Decides R1 (pay only via the ready arm), R2 (ready only behind fee_sufficient(held sum, amount) and no fail request; single send site), R3 (held "
              "sum discipline: one write, sum+htlc amount, overflow-free, counted<=>held), R4 (budget = held sum saturating-minus amount, read under the lock "
              "after readiness), R5 (amount only for amountless invoices), R6 (provider forwards verbatim, no exemptfee/maxfeepercent/partial), R7 (held until fate known), "
-             "R8 (amount table of the extractor), R9 (an HTLC whose TrampolineInfo, amount included, differs from the set's is rejected before it is counted), R10 (pay reports failure - which releases the counted HTLCs - only once nothing is pending or complete: C16-D, C15-V*), Q (amounts / expiries / declared total are the hook's JSON values: no hand-written field deserialiser).",
+             "R8 (amount table of the extractor), R9 (an HTLC whose TrampolineInfo, amount included, differs from the set's is rejected before it is counted), R10 (pay reports failure - which releases the counted HTLCs - only once nothing is pending or complete: C16-D, C15-V*), Q (amounts / expiries / declared total are the hook's JSON values: no hand-written field deserialiser), R11 (each lifecycle answers exactly once), and the exactness of the readiness predicate (C12-X1/X2).",
         note="Not decided: the inequality for every multiset by enumeration (follows from R2-R4 and C12); HTLC arrivals racing with the select.", design="5/C03"),
     "C04": dict(
         technique="operator-tree matching of the max-delay expression + who-writes rule on the minimum expiry + gate ordering (MIR)",
@@ -102,12 +102,12 @@ CHECKS = {
         technique="MAY-effect summaries over the call graph + await-freedom of pre-lock paths + rewrite provenance (MIR)",
         text="Decides N1 (paths that do not take the lock are Yield-free and call only synchronous effect-free functions; lock only for classified trampoline with "
              "forward_msat), N2 (forwards and unusable metadata reach only continue), R1 (single rewrite = payload clone minus record 16, guarded), R2 (order-preserving "
-             "removal), R3 (C18-T1/L1 re-evaluated), L (lookup by type equality, no ordering assumed); try_lock/semaphores count as effects, and the extractor returns only infos it built from this request; W (no permit pool / shared lock between the node's request and the handler).",
+             "removal), R3 (C18-T1/L1 re-evaluated), L (lookup by type equality, no ordering assumed); try_lock/semaphores count as effects, and the extractor returns only infos it built from this request; W (no permit pool / shared lock between the node's request and the handler), and C18-E (the decoders reject only truncated input).",
         note="Not decided: byte equality by enumeration (reduced to C18's clauses).", design="5/C13"),
     "C14": dict(
         technique="lock-scope analysis (guard live regions vs. Yield/poll sites) + latch rule + ADT field table (MIR)",
         text="Decides L1 (for every payments-table guard: only add-listener/fail-requester awaited, which await only latched sends; no second lock/RPC), L2 (no shared "
-             "lock/channel/connection in Rpc/ClnDatastore/PayPaymentProvider; no Semaphore/Barrier field or acquisition anywhere in the crate; per-call connections; other guards never across await), K (per-hash keys; no globals), T (own task per entry).",
+             "lock/channel/connection in Rpc/ClnDatastore/PayPaymentProvider; no Semaphore/Barrier field or acquisition anywhere in the crate; per-call connections; other guards never across await), K (per-hash keys; no globals), G (an HTLC joins the entry of its own hash: hash gate before the lookup), T (own task per entry).",
         note="Not decided: fairness of tokio and of the node's RPC socket.", design="5/C14"),
     "C15": dict(
         technique="dominance/ordering of awaited RPCs + switch-table extraction of tolerated error codes + loop-shape rule (MIR)",
@@ -129,12 +129,12 @@ CHECKS = {
     "C19": dict(
         technique="def-use provenance from option constants to parameter sinks through checked conversions + registered/read set comparison + dominance of the init reply (MIR)",
         text="Decides W (each sink is cp.option(expected option) via `?`/checked TryInto to the declared width/from_secs/Not only), R (registered superset of read), O (start only when policy "
-             "delta > safety delta, after all conversions), C (retry_for saturating at u16::MAX, forwarded; cltv_delta reaches the max-delay formula), D (one policy aggregate), I (params and policy are never modified after construction).",
+             "delta > safety delta, after all conversions), C (retry_for saturating at u16::MAX, forwarded; cltv_delta reaches the max-delay formula), D (one policy aggregate), I (params and policy are never modified after construction), J (the framework stores integer option values as the JSON number's as_i64()).",
         note="Not decided: CLN's parsing of option strings; handle_init's as_i64().unwrap() (pre-init, outside handler scope).", design="5/C19"),
     "C20": dict(
         technique="who-writes rule through the height guard + dominating comparison + loop-exit reachability on the poll loop (MIR)",
         text="Decides W (single monotone write under one guard region without await), S (sources: getinfo.blockheight and block_added.height reach the cell only via the update fn; provider "
-             "returns the cell), C (one cell: created once, the field holding it never re-assigned), F (every get_info of the ClnRpc implementation asks the node: no cached reply), H2 (notification handlers run in spawned tasks, not inside the raced reader future), L (loop exits only via shutdown; poll results continue; constant positive interval; spawned after a successful initial poll), H (subscription wiring).",
+             "returns the cell), C (one cell: created once, the field holding it never re-assigned), F (every get_info of the ClnRpc implementation asks the node: no cached reply), H2 (notification handlers run in spawned tasks, not inside the raced reader future), P (panic discipline over block_watcher.rs and the logging layer the poll task logs through), L (loop exits only via shutdown; poll results continue; constant positive interval; spawned after a successful initial poll), H (subscription wiring).",
         note="Not decided: the wall-clock bound 'within one interval'.", design="5/C20"),
 }
 
